@@ -18,6 +18,18 @@ CHECKS = {
         technique="Coq proof (structural induction on association lists / nth_error) + exact model/implementation correspondence of real NetCDF round trips evaluated by vm_compute; property oracle with bit-pattern comparison",
         design="6/C18",
     ),
+    "C04": dict(
+        text="Machine-checked Coq theorems about Model/Solver.v for every Ops satisfying the field laws: both fields are linear in (source, background) at every level, numerical and analytic (dispersion, double-precision storage); the background adds a uniform offset to the concentration and leaves the flux unchanged (both modes); in footprint mode the whole result is a function of the source's shape only. Model tied to bldfm.solver on every run by whole-solve float correspondence (FloatOps under vm_compute, 1e-8 relative) and by 23 bridge lemmas re-proved against kernels re-extracted from the current source.",
+        note="Theorems hold in exact complex arithmetic (hypothesis Laws O, non-vacuous: Base/ROps.v); IEEE rounding, pyFFTW and numba code generation are not covered by the theorems - they are exercised by the correspondence and the superposition oracle (thorough tier). Linearity is for double-precision storage. Closed under the global context.",
+        technique="Coq proof (finite-sum algebra over the frequency-set representation, induction over layers) + slice translator with bridge lemmas + float model/implementation correspondence",
+        design="6/C04",
+    ),
+    "C10": dict(
+        text="Machine-checked Coq theorems about Model/Solver.v: for ANY list of valid levels (order, repetitions, length) slot k of concentration, flux and height is exactly the single-level solve for node levels[k], in both modes, numerical and analytic branch, both storage precisions; the recording loop of the numerical sweep is characterised for every level list. Model tied to bldfm.solver by whole-solve float correspondence over all kinds of level arguments (scalar, list, ndarray, unsorted, duplicates) and by the bridge lemmas.",
+        note="Exact-arithmetic theorems (Laws O); the tie is differential execution + re-proved bridge lemmas; numba's compiled loop is modelled by its Python source. Closed under the global context.",
+        technique="Coq proof (induction over layers with a recording invariant) + float model/implementation correspondence + slice translator/bridge",
+        design="6/C10",
+    ),
 }
 
 NOT_YET = "check not built yet in this round of work (planned in DESIGN.md section 6); no claim is made"
